@@ -190,7 +190,7 @@ type World struct {
 
 	// C17: reference EVM world (nil in the other checks)
 	EVM         *EVMRef
-	Dead        map[string]bool // self-destructed contract addresses (retired, see F10b)
+	Dead        map[string]bool // ex-contracts (self-destructed): still addressable; the native code marker the application keeps for them is not compared
 	txIdx       int
 	evmDiverged bool
 
